@@ -3,6 +3,7 @@ package pass
 import (
 	"errors"
 	"fmt"
+	"slices"
 
 	"github.com/mmcloughlin/avo/ir"
 )
@@ -15,7 +16,7 @@ func LabelTarget(fn *ir.Function) error {
 	for _, node := range fn.Nodes {
 		switch n := node.(type) {
 		case ir.Label:
-			if _, found := target[n]; found {
+			if _, found := target[n]; found || slices.Contains(pending, n) {
 				return fmt.Errorf("duplicate label \"%s\"", n)
 			}
 			pending = append(pending, n)
